@@ -151,7 +151,7 @@ def gen_worker(args):
             except common.ImplTimeout:
                 res.bump("impl_gave_up_1.5s")
                 break
-            except Exception as e:
+            except (Exception, common.ImplTimeout) as e:
                 res.bump("impl_raised_" + type(e).__name__)
                 forest = []
             same = [t for t in forest if serialise(t, is_bytes) == w]
@@ -186,14 +186,14 @@ def roundtrip_constrained(res, n):
         random.seed(rng.randrange(1 << 30))
         try:
             sols = common.guarded(lambda: fan.fuzz(desired_solutions=5, max_generations=10, population_size=15), 20)
-        except Exception as e:
+        except (Exception, common.ImplTimeout) as e:
             res.bump("validate_run_raised_" + type(e).__name__)
             continue
         for s in sols:
             w = str(s)
             try:
                 back = list(common.guarded(lambda: fan.parse(w), 5))
-            except Exception as e:
+            except (Exception, common.ImplTimeout) as e:
                 back = []
             ok = any(str(t) == w for t in back)
             res.count(("validate", spec, w), nontrivial=True)
@@ -230,7 +230,7 @@ def probes(res, sigs):
         g = Fandango(spec).grammar
         try:
             acc = common.guarded(lambda: any(str(t) == word for t in g.parse_forest(word)), 5)
-        except Exception:
+        except (Exception, common.ImplTimeout):
             acc = False
         res.count(("probe", sig), nontrivial=True)
         if acc:
